@@ -30,7 +30,9 @@ func (c05) Budget(tier string) (int, int, int) {
 	}
 	return 55, 1 << 30, 240
 }
-func (c05) Gen(r *core.Rng, tier string, idx int) *core.Trace { return genExt4History(r, tier, idx, true) }
+func (c05) Gen(r *core.Rng, tier string, idx int) *core.Trace {
+	return genExt4History(r, tier, idx, true)
+}
 func (c05) Exec(t *core.Trace) *core.Result {
 	res, _ := execExt4History(t, "C05")
 	return res
